@@ -715,7 +715,16 @@ def attribute(f):
     return None
 
 def run(ctx):
-    st = vlib.proof_stage(ctx, "C06", PROOF_TARGETS, PROOF_FILES, slices=["c06", "ir"])
+    st = vlib.proof_stage(ctx, "C06", PROOF_TARGETS + ["TypifyModel.Proofs.StructProps", "TypifyModel.Proofs.SerdeAttrs"],
+                          PROOF_FILES + ["Proofs/StructProps.lean", "Proofs/SerdeAttrs.lean"], slices=["c06", "ir", "sprop"])
+    # which state a member gets (Required / Optional / Default(value)) and whether its type is wrapped in Option: structs.rs
+    # struct_property / has_default against Model/StructProps.lean over the whole lattice (M0)
+    import spropstage
+    pstats, pdis = spropstage.stage(ctx) if st["driver_ok"] else ({"ran": False}, [])
+    ctx.log("member state M0: %s disagreements=%d" % (pstats, len(pdis)))
+    if pdis:
+        st["broken"].append("correspondence M0 (structs.rs struct_property / has_default vs Model/StructProps.lean) disagrees on %d of %d points, first: %s"
+                            % (len(pdis), pstats.get("compared", 0), json.dumps(pdis[0])[:400]))
     fok, flog = vlib.lean_build(ctx, [FINDINGS_TARGET])
     if not fok: ctx.notes.append("Proofs/C06Findings.lean no longer compiles (a listed finding was repaired?)")
     stats = {k: 0 for k in ("m0_probes", "m0_agree", "m0_fuel", "wf_accepted", "check_defaults", "hd_checked", "hd_rejected", "docs", "docs_invalid_default",
@@ -745,7 +754,7 @@ def run(ctx):
     if broken and not unattributed:
         vlib.violation(ctx, {"property": "C06", "kind": "property no longer shown to hold", "broken_obligations": broken,
                              "first_disagreements": [{k: v for k, v in d.items()} for d in dis[:3]], "lean_log": st.get("log", "")}, no_input=not dis)
-    cov = {"obligations": st["obligations"], "discharged": st["discharged"],
+    cov = {"member_state_M0": pstats, "obligations": st["obligations"], "discharged": st["discharged"],
            "checker_cmd": "cd /verif/lean && lake build TypifyModel.Proofs.C06 && lake env lean TypifyModel/Audit/C06.lean",
            "trusted_base": vlib.TRUSTED_BASE + ["serde_derive / serde_json behaviour is modelled (Model/Serde*.lean), tied by M3 to the compiled code",
                                                 "the typing judgement hasType stands for rustc on the emitted default expressions (checked by compiling every accepted case)", "rustc"],
